@@ -16,7 +16,11 @@ scheduled times are due in one wake-up cycle.  A quarter of all sends (routines
 and main thread) go through `with server.bind():` blocks of never-booted
 Server objects with server.latency in {0, 0.0, -0.0, 0.2, 0.05, None, -1}: the
 bundle sent on exit must carry logical time + latency (exactly 0 is NOT
-immediately).  Sends from the main thread (quiet,
+immediately).  Absolutely scheduled routines also run bind() blocks with a
+`yield from server.sync(latency=Ls)` inside (one Server each; the recorder at
+_send plays scsynth and answers /synced): every collected message, before and
+after the sync, must leave stamped logical time + server.latency, only /sync
+itself follows Ls.  Sends from the main thread (quiet,
 holding the main lock, and unlocked while clocks run) are checked against the
 closed interval [call time, return time].  Half of the rounds forward the
 datagrams to the library's own UDP port: OscFunc callbacks must receive
@@ -76,6 +80,8 @@ MIN_COUNTERS = {
     'rt_timetags_compared/completion-bundle': 20,
     'rt_timetags_compared/server-bind': 60,
     'rt_server_bind_zero_latency_compared': 30,
+    'rt_bind_sync_blocks_checked': 30,
+    'rt_bind_sync_timetags_compared': 100,
     'rt_timetags_distinguishing_logical_from_physical': 200,
     'rt_sends_late_over_1ms': 50,
     'rt_routine_sends/SystemClock': 50,
